@@ -28,6 +28,7 @@ def vocabulary():
         {'op': 'remove', 'obj': 'P', 'what': 'LIQUID'}, {'op': 'remove', 'obj': ['P', "(1, 1)"], 'what': 'water'},
         {'op': 'dilute', 'obj': 'A', 'solute': 'nacl', 'conc': '0.1 M', 'solvent': 'water'},
         {'op': 'fill_to', 'obj': 'B', 'solvent': 'water', 'q': '5 mL'},
+        {'op': 'fill_to', 'obj': 'B', 'solvent': 'lipase', 'q': '6 mL'},          # an enzyme as the filler (density in U/mL)
         {'op': 'fill_to', 'obj': 'P', 'solvent': 'water', 'q': '100 uL'},
         {'op': 'fill_to', 'obj': ['P', "(1, slice(None))"], 'solvent': 'water', 'q': '100 uL'},
         # (the same substance in two portions: a container adds them up)
